@@ -453,6 +453,9 @@ func scenarios(tier string) []sched.Scenario {
 	if !withFollower {
 		return out
 	}
+	if Extra != nil {
+		out = append(out, Extra(tier)...)
+	}
 	fd := 2
 	if tier == "thorough" {
 		fd = 3
@@ -498,6 +501,9 @@ func Main(property string, stage2 bool, keep map[string]bool, rule string) int {
 			"scheduling points: lock acquisition, atomics, channel operations, select, waits; deviation (delay) bounded"}}
 	return sched.Main(su, *replay)
 }
+
+// Extra: further scenarios of the follower side, run before the apply-loop scenarios (C07 only).
+var Extra func(tier string) []sched.Scenario
 
 var keepKeys map[string]bool
 
